@@ -844,6 +844,72 @@ def to_trials_stage(c):
           c.prop_fail('to-trials-order', 'best_candidates_to_trials does not return the best candidate first: acquisition values %s' % accs, case)
 
 
+def parallel_stage(c):
+  """n_parallel > 1 (a parallel acquisition function scores SETS of points): property predicates only - the model
+  covers n_parallel=None.  Priors whose number is not a multiple of n_parallel, trial padding on the converter (the
+  rows after the last prior hold the converter's fill values NaN / -1), and a score that is finite and maximal at
+  those fill values: every returned point must still be a point of the search space."""
+  E = env()
+  jax, jnp = E['jax'], E['jnp']
+  plans = [('eagle', 3), ('random', 5)] if c.tier == 'quick' else [('eagle', 3), ('eagle', 5), ('eagle', 4), ('random', 3), ('random', 5)]
+  for strategy, n_prior in plans:
+    evals = eagle_pool(3, 3, 4) + 8 if strategy == 'eagle' else 16
+    cfg = Cfg(strategy, 3, [3, 4, 2], 'pow2', 4, 3, evals, n_prior, 'n_parallel=2,priors=%d' % n_prior)
+    runner = Runner(cfg)
+    case = {'config': cfg.desc(), 'n_parallel': 2, 'n_prior': n_prior}
+    c.count(1, ('parallel', strategy, n_prior), kind='%s:n_parallel=2' % strategy)
+    if runner.build_error is not None:
+      c.prop_fail('optimizer-raises', 'building the optimiser raised %r' % (runner.build_error,), case)
+      continue
+    params, _ = runner.gen_params(c.rng, 'catonly')
+    params['table'][:, :] = 0.25
+    params['table'][:, 0] = 1.0           # category 0 is the best one everywhere (and what an index of -1 is clipped to)
+    pts = [{'c': [round(c.rng.random(), 2) for _ in range(cfg.nc)], 'k': [0 for _ in cfg.ar]} for _ in range(n_prior)]
+    pf = runner.priors_from_points(pts)
+    rescore, opt = runner.rescore, runner.opt
+
+    def make(params):
+      def score(x, seed):
+        del seed
+        r = rescore(params, x.continuous.padded_array, x.categorical.padded_array)     # (batch, n_parallel)
+        return jnp.sum(r, axis=-1)
+      return score
+    fn = jax.jit(lambda seed, params, pf: opt(make(params), count=cfg.count, seed=seed, prior_features=pf, n_parallel=2))
+    outs = []
+    for seed in (3, 3, 11):
+      try:
+        res = fn(jax.random.PRNGKey(seed), params, pf)
+        jax.block_until_ready(res)
+        outs.append((np.array(res.rewards), np.array(res.features.continuous), np.array(res.features.categorical)))
+      except Exception as e:  # pylint: disable=broad-except
+        c.prop_fail('optimizer-raises', 'the optimiser (n_parallel=2, %d priors) raised %r' % (n_prior, e), case)
+        outs = []
+        break
+      c.traces += 1
+    if not outs:
+      continue
+    if not all(np.array_equal(a, b, equal_nan=True) for a, b in zip(outs[0], outs[1])):
+      c.prop_fail('same-seed-different-result', 'two calls with the same seed and score function returned different candidates (n_parallel=2)', case)
+    for rewards, cont, cat in (outs[0], outs[2]):
+      if cont.shape[:2] != (cfg.count, 2) or cat.shape[:2] != (cfg.count, 2):
+        c.prop_fail('result-shape', 'n_parallel=2, count=%d: result shapes %s / %s' % (cfg.count, cont.shape, cat.shape), case)
+        continue
+      feats = [feat_json(cont[i, j], cat[i, j]) for i in range(cfg.count) for j in range(2)]
+      chk = c.lean('C19', [{'op': 'check', 'layout': runner.layout, 'zero': fkey1(0.0, runner.fdtype), 'one': fkey1(1.0, runner.fdtype), 'feats': feats}])[0]
+      if 'error' in chk:
+        raise core.InfraError('driver C19: %s' % chk)
+      bad = [i for i, (a, b) in enumerate(zip(chk['inBounds'], chk['maskFixed'])) if not (a and b)]
+      if bad:
+        i = bad[0]
+        c.prop_fail('candidate-out-of-bounds:n_parallel', 'n_parallel=2, %d priors (%s): point %d of returned set %d is not a point of the search space: continuous %s categorical %s (layout %s)' % (
+            n_prior, strategy, i % 2, i // 2, cont[i // 2, i % 2].tolist(), cat[i // 2, i % 2].tolist(), runner.layout),
+                    dict(case, continuous=cont.tolist(), categorical=cat.tolist(), rewards=rewards.tolist()))
+      # the reported score is the score function's value at the returned set
+      again = np.asarray(jnp.sum(rescore(params, jnp.asarray(cont), jnp.asarray(cat)), axis=-1))
+      if not all(close(a, b) for a, b in zip(rewards, again)):
+        c.prop_fail('score-mismatch:n_parallel', 'n_parallel=2: reported rewards %s, the score function gives %s at the returned sets' % (rewards.tolist(), again.tolist()), case)
+
+
 def run(c):
   c.proof_stage()
   state = {'exact': 0, 'compared': 0, 'random_pad': 'honoured'}
@@ -876,6 +942,7 @@ def run(c):
           outn['rewards'].tolist(), outn['cont'][:, 0].tolist()), {'config': wn.desc(), 'score': pdesc, 'seed': 5})
     c.flags['negativeNaNRanksBelowPlaceholder'] = bool(np.all(np.isneginf(outn['rewards'])))
   to_trials_stage(c)
+  parallel_stage(c)
   fresh_rebuild_determinism(c, cfgs[0])
   if not quick:
     fresh_rebuild_determinism(c, cfgs[5])
